@@ -13,8 +13,9 @@ TInit == /\ tid \in 1..Len(Traces) /\ l = 1 /\ used = {} /\ Init
 TStep ==
   /\ l <= Len(Traces[tid].steps)
   /\ LET e == Traces[tid].steps[l] IN
-       /\ Complete(Traces[tid].name, Traces[tid].open, Traces[tid].typed, Traces[tid].closing)
-       /\ res'.ok = e.obs.ok
+       /\ IF Traces[tid].kind = "analyse"
+            THEN Analyse(Traces[tid].feat, e.obs.ok)
+            ELSE Complete(Traces[tid].name, Traces[tid].open, Traces[tid].typed, Traces[tid].closing) /\ res'.ok = e.obs.ok
        /\ used' = IF res'.dev = "" THEN used ELSE used \cup {res'.dev}
   /\ l' = l + 1 /\ tid' = tid
 
